@@ -31,7 +31,7 @@ class ProtocolError(Exception):
     pass
 
 
-def _mk_collator(k, mode_kind, B, field, single, errors):
+def _mk_collator(k, mode_kind, B, field, single, errors, silent=False):
     from kappadata.collators import KDSingleCollator
 
     class H(KDSingleCollator):
@@ -52,7 +52,8 @@ def _mk_collator(k, mode_kind, B, field, single, errors):
             if ctx is not None:
                 if not isinstance(ctx, dict):
                     raise ProtocolError(f"member {k} got a ctx of type {type(ctx).__name__}")
-                ctx[f"c{k}"] = torch.tensor(float(k))
+                if not silent:
+                    ctx[f"c{k}"] = torch.tensor(float(k))
             if mode_kind == "before":
                 # must see the collated batch
                 item = batch if single else batch[field]
@@ -135,10 +136,22 @@ def check_pipeline(spec):
     single = len(items) == 1
     mode_str = " ".join(f"i{j}" if k != "x" else "x" for j, k in enumerate(items))
     errors = []
-    colls = [_mk_collator(k, m, B, field, single, errors) for k, m in enumerate(modes)]
+    silent = bool(spec.get("silent"))
+    colls = [_mk_collator(k, m, B, field, single, errors, silent) for k, m in enumerate(modes)]
     how = spec["how"]
     if how == "single" or how == "wrapper":
         colls, modes = colls[:1], modes[:1]
+    other_mode = " ".join(reversed(mode_str.split(" ")))
+
+    def decoy():
+        # the same collator objects may be wrapped a second time with another configuration (e.g. train vs eval pipeline):
+        # that must not change what this pipeline does - whichever of the two is built first
+        if how == "wrapper":
+            KC.KDSingleCollatorWrapper(colls[0], dataset_mode=other_mode, return_ctx=not spec["return_ctx"])
+        elif how == "compose":
+            KC.KDComposeCollator(colls, dataset_mode=other_mode, return_ctx=not spec["return_ctx"])
+    if spec.get("decoy") == "before":
+        decoy()
     if how == "compose":
         pipe = KC.KDComposeCollator(colls, dataset_mode=mode_str, return_ctx=spec["return_ctx"])
     elif how == "single":
@@ -146,13 +159,8 @@ def check_pipeline(spec):
         pipe.dataset_mode, pipe.return_ctx = mode_str, spec["return_ctx"]
     else:
         pipe = KC.KDSingleCollatorWrapper(colls[0], dataset_mode=mode_str, return_ctx=spec["return_ctx"])
-    # the same collator objects may be wrapped a second time with another configuration (e.g. train vs eval pipeline):
-    # that must not change what this pipeline does
-    other_mode = " ".join(reversed(mode_str.split(" ")))
-    if how == "wrapper":
-        KC.KDSingleCollatorWrapper(colls[0], dataset_mode=other_mode, return_ctx=not spec["return_ctx"])
-    elif how == "compose":
-        KC.KDComposeCollator(colls, dataset_mode=other_mode, return_ctx=not spec["return_ctx"])
+    if spec.get("decoy") == "after":
+        decoy()
     samples = _make_samples(spec)
     counter = {"batch": 0}
     real = base.default_collate
@@ -202,7 +210,8 @@ def check_pipeline(spec):
         got_batch, got_ctx = got
         exp_ctx = default_collate([s[1] for s in samples]) if spec["ctx_keys"] else {}
         for k in range(len(modes)):
-            exp_ctx[f"c{k}"] = torch.tensor(float(k))
+            if not silent:
+                exp_ctx[f"c{k}"] = torch.tensor(float(k))
         lost = set(exp_ctx) - set(got_ctx)
         invented = set(got_ctx) - set(exp_ctx)
         if lost or invented:
@@ -328,6 +337,7 @@ PIPE = st.fixed_dictionaries({
     "return_ctx": st.booleans(),
     "ctx_keys": st.lists(st.sampled_from(["a", "b", "view0"]), max_size=2, unique=True),
     "how": st.sampled_from(["compose", "compose", "compose", "single", "wrapper"]),
+    "silent": st.booleans(), "decoy": st.sampled_from([None, "before", "after"]),
 })
 SHIPPED = st.fixed_dictionaries({"B": st.integers(2, 6), "colls": st.lists(st.sampled_from(["mix", "dino"]), min_size=1, max_size=3),
                                  "seed": st.integers(0, 999)})
